@@ -16,7 +16,9 @@ RULE = ("one run = a tape-generated terminal set (1-4 terminals, FMMU/direct) wi
         "in a slow SyncGroup (Python path: Device.update on current_data) and once in a "
         "FastSyncGroup (program path: the real generated group program executed by the eBPF "
         "interpreter, entered as the dispatcher's tail call would); 2-5 frames with drawn "
-        "contents and drawn DeviceVar values are put through both paths; a comparison of "
+        "contents and drawn DeviceVar values are put through both paths (the slow group's "
+        "frame buffer is updated in place or replaced by a fresh one, as a restart of the "
+        "group does); a comparison of "
         "two paths on the same data, no schedule matters; distinct = distinct (layout, "
         "links, frame contents) digests; non-trivial = at least two linked variables")
 COMPONENTS = {
@@ -162,7 +164,12 @@ def run(tape, scenario):
                         setattr(df, f"vo{j}", v)
                         ln["value"] = v if ds.consts[j] is None else ds.consts[j]
                 # ---- Python path
-                sg_s.current_data[:] = frame
+                if tape.chance("c19/fresh-buffer", 35):
+                    # what SyncGroup.start() does when a stopped group is started again
+                    sg_s.current_data = bytearray(frame)
+                    world.count("c19/buffer-replaced-as-by-restart")
+                else:
+                    sg_s.current_data[:] = frame
                 for d in devs_s:
                     d.update()
                 after_s = bytes(sg_s.current_data)
